@@ -57,13 +57,20 @@ func (p *Paragraph) Set(key, value string) {
 
 func (p *Paragraph) WriteTo(out io.Writer) error {
 	for _, key := range p.Order {
-		value := p.Values[key]
-
-		value = strings.Replace(value, "\n", "\n ", -1)
-		value = strings.Replace(value, "\n \n", "\n .\n", -1)
+		/* The reader ends every folded value with a newline. That one
+		 * closes the last line, it is not a line of its own. */
+		lines := strings.Split(strings.TrimSuffix(p.Values[key], "\n"), "\n")
+		for i := 1; i < len(lines); i++ {
+			if strings.TrimSpace(lines[i]) == "" {
+				/* an empty line would end the paragraph */
+				lines[i] = " ."
+			} else {
+				lines[i] = " " + lines[i]
+			}
+		}
 
 		if _, err := out.Write(
-			[]byte(fmt.Sprintf("%s: %s\n", key, value)),
+			[]byte(fmt.Sprintf("%s: %s\n", key, strings.Join(lines, "\n"))),
 		); err != nil {
 			return err
 		}
